@@ -31,7 +31,8 @@ package template
 //@   loop 0
 //@     invariant isnil(ns) && forall(k, 0, rangeindex + 1, typeis(soyfile.Body[k], *ast.SoyDocNode)) && -1 <= rangeindex
 //@   loop 1
-//@     invariant 0 <= i && len(soyfile.Body) > 0 && (typeis(soyfile.Body[0], *ast.SoyDocNode) || typeis(soyfile.Body[0], *ast.NamespaceNode)) && ns != nil && registryOK(r) && seenT == addedT && exists(k, 0, len(soyfile.Body), typeis(soyfile.Body[k], *ast.NamespaceNode) && unbox(soyfile.Body[k], *ast.NamespaceNode) == ns)
+//@     invariant 0 <= i && len(soyfile.Body) > 0 && (typeis(soyfile.Body[0], *ast.SoyDocNode) || typeis(soyfile.Body[0], *ast.NamespaceNode)) && ns != nil && registryOK(r) && exists(k, 0, len(soyfile.Body), typeis(soyfile.Body[k], *ast.NamespaceNode) && unbox(soyfile.Body[k], *ast.NamespaceNode) == ns)
+//@     invariant[templates-seen-so-far-are-registered;C07] seenT == addedT
 //@     decreases len(soyfile.Body) - i
 //@   loop 2
 //@     invariant len(headerParams) == rangeindex + 1 && rangeindex + 1 <= len(tn.Body.Nodes) && registryOK(r) && sdn != nil
